@@ -147,6 +147,7 @@ def run(chk):
     )
     chk.not_decided = "that accepted streams are split at the right byte offsets (positional arithmetic), equality with an independent RFC reader on valid messages, parity with llhttp."
     chk.explanation += " Also decided: only SP/HTAB are ever trimmed from wire text in the strict parsing path (no laundering strip before the lexical gates). After the defect hunt: the empty-body decision never depends on the parsed message's own method (a HEAD request's body is framed by its headers); control characters in the request-target and a bare LF in a complete start line are refused."
+    chk.explanation += " Second hunt: an HTTP/1.0 request with Transfer-Encoding closes the connection; the chunk-extension guard's byte class covers every control byte but HTAB; the Host value is validated with the constructor request.url uses."
     chk.assumptions += ["the pure-Python parser is the one in use (C extensions not built in this tree)", "yarl/multidict semantics as tabled in DESIGN section 2"]
     hp = repo.cls(MOD, "HeadersParser")
     ph = repo.func(MOD, "HeadersParser.parse_headers")
